@@ -87,7 +87,9 @@ fn has_permission(
                     is_allowed
                 })
             }
-            None => selected_db_user_name == "all",
+            // Only sessions opened with the database token (no user name) have access by
+            // default, a user literally named "all" needs a permission list like any other user
+            None => client.selected_db_user_name().is_none(),
         }
     }
 }
